@@ -115,6 +115,7 @@ def c05_rows(values, rows, text_bits):
     T = len(values)  # scratch register
     for i in rows:
         a = values[i]
+        st.sample({'op': 'all binary operations', 'a': str(a), 'b': str(values[(i * 7 + 3) % len(values)])})
         reqs = []
         meta = []
         for j, b in enumerate(values):
@@ -387,6 +388,7 @@ def c06_rows(pairs, rows, text_bits):
     T = len(vals) + 5
     for i in rows:
         a = vals[i]
+        st.sample({'op': 'add, mul', 'a': R.num_text(a), 'b': R.num_text(vals[(i * 5 + 1) % len(vals)])})
         reqs = []
         meta = []
         for j, b in enumerate(vals):
@@ -655,6 +657,7 @@ def c07_rows(pairs, rows):
         rows = list(rows) + list(range(n0, len(vals), 5))
     for i in rows:
         a = vals[i]
+        st.sample({'cmp': [R.num_text(a), R.num_text(vals[(i * 11 + 2) % len(vals)])]})
         reqs = [('num', 'ncmp', i, j) for j in range(len(vals))]
         resps = sh.batch(reqs)
         for b, resp in zip(vals, resps):
@@ -769,6 +772,7 @@ def c09_base(base, values):
         reqs.append(('num', 'bset', 0, R.lit(v)))
         reqs.append(('num', 'bbase', 0, base))
     resps = sh.batch(reqs)
+    st.sample({'base': base, 'value': str(values[len(values) // 2]), 'text': R.to_base(values[len(values) // 2], base)})
     for k, v in enumerate(values):
         st.inc('transitions')
         resp = resps[2 * k + 1]
